@@ -211,6 +211,14 @@ pub fn render_all(args: &[String]) -> i32 {
         let r = render_seg(s);
         writeln!(out, "SEG {} => {}", seg_toks(&s), match r { Out::Ok(t) => t, o => o.class() }).unwrap();
     }
+    // the romaniser path: a `+` alias prints every segment through get_nearest_grapheme, a plain alias through get_as_grapheme
+    let plus = vec!["[+cons] > +N".to_string(), "[-cons] > +M".to_string()];
+    let plain = vec!["a > A".to_string()];
+    for s in segment_space(thorough) {
+        let w = WordS { sylls: vec![verif::SyllS { stress: 0, tone: 0, segs: vec![s] }] };
+        let a = guarded(|| verif::render_word(&w, &plus)); let b = guarded(|| verif::render_word(&w, &plain));
+        writeln!(out, "ALIAS {} => {} | {}", seg_toks(&s), match a { Out::Ok(t) => t, o => o.class() }, match b { Out::Ok(t) => t, o => o.class() }).unwrap();
+    }
     // the graphemes that share a bundle, as words through `run`
     let mut cards = verif::cardinals(); cards.sort();
     let words: Vec<String> = cards.iter().map(|(k, _)| format!("{k}a")).collect();
